@@ -167,7 +167,7 @@ func (e *saEx) Extract(context.Context, *standalone.ScanInput) (inventory.Invent
 	return inventory.Inventory{}, nil
 }
 func (e *saEx) ToPURL(*extractor.Package) *purl.PackageURL { return nil }
-func (e *saEx) Ecosystem(*extractor.Package) string         { return "" }
+func (e *saEx) Ecosystem(*extractor.Package) string        { return "" }
 
 type det struct {
 	name string
